@@ -855,4 +855,5 @@ func runC03(c *Ctx) {
 		}
 	}
 	c03WireClose(c)
+	c03RefusedOutOfOrder(c)
 }
